@@ -152,6 +152,22 @@ def first_call_on(c, k):
     return not any(op[0] == "call" and op[1] == o for op in c["ops"][:k])
 
 
+def replays_first_call(c, z, k):
+    """call k replays call z from a snapshot that was taken before the first-ever call of z's object (so the values that
+    followed the snapshot include that first call)"""
+    ok = c["ops"][k][1]
+    sets = [i for i, op in enumerate(c["ops"][:k]) if op[0] == "set" and op[1] == ok]
+    if not sets:
+        return False
+    h = c["ops"][sets[-1]][2]
+    made = [i for i, op in enumerate(c["ops"]) if op[0] in ("get", "mk")]
+    if h >= len(made):
+        return False
+    oz = c["ops"][z][1]
+    firsts = [i for i, op in enumerate(c["ops"]) if op[0] == "call" and op[1] == oz]
+    return bool(firsts) and made[h] <= firsts[0] <= z
+
+
 def run(ctx):
     core.check_prop_file(ctx, "Prop_C09.v")
     known = {f["sig"] for f in core.known_for("C09")}
@@ -203,7 +219,7 @@ def run(ctx):
                         a, b = base["ops"][z], base["ops"][k]
                         # (a failed call leaves whatever the object held: only its outcome is a function of state and call)
                         if (a["outcome"] != b["outcome"] or (a["outcome"] == "ok" and a["values"] != b["values"])) and \
-                                "replay.first_call_fresh_randsz_list" in known and has_randsz(c) and first_call_on(c, z):
+                                "replay.first_call_fresh_randsz_list" in known and has_randsz(c) and (first_call_on(c, z) or replays_first_call(c, z, k)):
                             stats["known_region"] = stats.get("known_region", 0) + 1
                             continue
                         if a["outcome"] != b["outcome"] or (a["outcome"] == "ok" and a["values"] != b["values"]):
